@@ -296,7 +296,7 @@ impl Shim {
         &self,
         cb: usize,
         prog: &Program,
-        columns: &'a [Vec<Column>],
+        columns: &[&'a [Column]],
         w: QueryResultWriter<'a, W>,
     ) -> io::Result<()> {
         let mut w = Some(w);
@@ -326,7 +326,7 @@ impl Shim {
                     self.log_call(cb, "drop_result_writer", true, None);
                 }
                 Step::Set { rows, end, .. } => {
-                    let mut rw = logged!(self, cb, "start", None, cur.start(&columns[si]))?;
+                    let mut rw = logged!(self, cb, "start", None, cur.start(columns[si]))?;
                     let written = (|| -> io::Result<()> {
                         for (ri, row) in rows.iter().enumerate() {
                             let at = Some((si, ri));
@@ -427,7 +427,20 @@ impl Shim {
                 _ => Vec::new(),
             })
             .collect();
-        self.run_program(cb, &prog, &columns, w)?;
+        // A shim that keeps one column list and answers with prefixes of it (`&all[..k]`): when the
+        // column list of one resultset is a prefix of another's in the same program, both are
+        // handed to the library as slices of the same allocation.
+        let specs: Vec<&[ColSpec]> = prog.steps.iter().map(|s| if let Step::Set { cols, .. } = s { &cols[..] } else { &[][..] }).collect();
+        let slices: Vec<&[Column]> = (0..columns.len())
+            .map(|i| {
+                let master = (0..columns.len()).filter(|&j| specs[j].len() >= specs[i].len() && !specs[i].is_empty() && specs[j][..specs[i].len()] == *specs[i]).max_by_key(|&j| (specs[j].len(), std::cmp::Reverse(j)));
+                match master {
+                    Some(j) => &columns[j][..specs[i].len()],
+                    None => &columns[i][..],
+                }
+            })
+            .collect();
+        self.run_program(cb, &prog, &slices, w)?;
         if let Some(Some(tag)) = self.st.borrow_mut().then_fail.pop_front() {
             // the shim reported its result and then gives the connection up
             return Err(ShimError::Tagged(tag));
